@@ -68,6 +68,9 @@ func (e *Enc) instr(fr *Frame, st *State, ins ssa.Instruction) {
 		pt := ins.Type().Underlying().(*types.Pointer)
 		obj := e.allocObj(st, pt.Elem())
 		fr.Vals[ins] = &Val{T: e.mkPtr(obj, e.bv64(0))}
+		if len(e.P.allocInvs(pt.Elem())) > 0 {
+			e.allocSites = append(e.allocSites, allocSite{obj: obj, guard: st.Reach, typ: pt.Elem(), pos: ins.Pos()})
+		}
 	case *ssa.UnOp:
 		fr.Vals[ins] = e.unop(fr, st, ins)
 	case *ssa.BinOp:
@@ -77,7 +80,11 @@ func (e *Enc) instr(fr *Frame, st *State, ins ssa.Instruction) {
 		loc := e.locOf(addr, ins.Addr.Type())
 		e.checkNonNil(fr, st, loc, ins.Pos(), "nil-store")
 		v := e.val(fr, ins.Val)
-		e.store(st, loc, e.valTerm(v))
+		vt := e.valTerm(v)
+		if hn := locHeap(loc); hn != "" {
+			e.invCheck(fr, st, hn, vt, ins.Pos())
+		}
+		e.store(st, loc, vt)
 	case *ssa.FieldAddr:
 		x := e.val(fr, ins.X)
 		pt := ins.X.Type().Underlying().(*types.Pointer)
@@ -231,6 +238,10 @@ func (e *Enc) unop(fr *Frame, st *State, ins *ssa.UnOp) *Val {
 		v := e.load(st, loc)
 		if wf := e.wellFormed(v, loc.Typ, st); !wf.IsTrue() {
 			e.assume(st, wf)
+		}
+		if hn := locHeap(loc); hn != "" {
+			// type invariant: assumed at every read, checked at every write and allocation
+			e.invAssume(st, hn, v, nil)
 		}
 		if ins.CommaOk {
 			unsupported("channel receive")
@@ -407,7 +418,7 @@ func (e *Enc) bytesOfString(st *State, s *smt.Term, elem types.Type) *smt.Term {
 	c := e.C
 	obj := e.allocObj(st, elem)
 	ln := c.App("strlen", smt.BV(64), s)
-	e.assume(st, c.Cmp("bvult", ln, e.bv64(1<<62)))
+	e.assume(st, c.Cmp("bvult", ln, e.bv64(1<<40)))
 	// content: region equals strbyte(s, .)
 	hn := cellHeap(elem)
 	h := e.heap(st, hn, heapSort(smt.BV(8)))
@@ -705,10 +716,35 @@ func (e *Enc) lookup(fr *Frame, st *State, ins *ssa.Lookup) *Val {
 	if wf := e.wellFormed(val, mt.Elem(), st); !wf.IsTrue() {
 		e.assume(st, wf)
 	}
+	e.invAssume(st, mapHeap(mt), val, dom)
 	if ins.CommaOk {
 		return &Val{Tup: []*Val{{T: val}, {T: dom}}}
 	}
 	return &Val{T: val}
+}
+
+// nonNil: the value of type t is not nil (pointers, maps, slices, interfaces).
+func (e *Enc) nonNil(v *smt.Term, t types.Type) *smt.Term {
+	c := e.C
+	switch t.Underlying().(type) {
+	case *types.Pointer:
+		return c.Ne(e.ptrObj(v), e.bv64(0))
+	case *types.Slice:
+		return c.Ne(e.slObj(v), e.bv64(0))
+	case *types.Map:
+		return c.Ne(v, e.bv64(0))
+	case *types.Interface:
+		return c.Ne(e.ifaceType(v), e.bv64(0))
+	}
+	unsupported("nonnil type invariant on %s", typeStr(t))
+	return nil
+}
+
+type allocSite struct {
+	obj   *smt.Term
+	guard *smt.Term
+	typ   types.Type
+	pos   token.Pos
 }
 
 func (e *Enc) mapSorts(mt *types.Map) (ds, vs *smt.Sort) {
@@ -739,6 +775,7 @@ func (e *Enc) mapUpdate(fr *Frame, st *State, ins *ssa.MapUpdate) {
 	k := e.valTerm(e.val(fr, ins.Key))
 	v := e.valTerm(e.val(fr, ins.Value))
 	e.safety(fr, st, "nil-map-write", ins.Pos(), c.Ne(m, e.bv64(0)))
+	e.invCheck(fr, st, mapHeap(mt), v, ins.Pos())
 	ds, vs := e.mapSorts(mt)
 	dh := e.heap(st, mapDomHeap(mt), ds)
 	vh := e.heap(st, mapHeap(mt), vs)
